@@ -164,8 +164,13 @@ func (ig *incGen) file(depth int, cmdSafe, allowAffix bool, feats map[string]boo
 	defName := ""
 	if !cmdSafe && core.Chance(r, 1, 3) {
 		defName = fmt.Sprintf("%s-d", name)
+		if core.Chance(r, 1, 2) {
+			// the same name in several files (and possibly in the including file), each with its own value
+			defName = "shared-d"
+			feats["inc-definition-shared-name"] = true
+		}
 		feats["inc-definition"] = true
-		sb.WriteString(ind() + "##!> define " + defName + " " + core.Pick(r, "zz", `[0-9]+`, `(?:q|r)`) + "\n")
+		sb.WriteString(ind() + "##!> define " + defName + " " + core.Pick(r, "zz", `[0-9]+`, `(?:q|r)`, "yy", `[k-m]`) + fmt.Sprint(ig.n) + "\n")
 	}
 	words := ig.g.WordList(2 + r.Intn(5))
 	for i, w := range words {
@@ -200,6 +205,11 @@ func (ig *incGen) file(depth int, cmdSafe, allowAffix bool, feats map[string]boo
 		ig.f.Exclude[name] = text
 	} else {
 		ig.f.Include[name] = text
+		if core.Chance(r, 1, 4) {
+			// a file of the same name in the exclude directory: the include directory is searched first
+			feats["inc-name-in-both-dirs"] = true
+			ig.f.Exclude[name] = "shadowed" + name + "\nnotused\n"
+		}
 	}
 	return name
 }
@@ -217,6 +227,13 @@ func c05Gen(rng *rand.Rand) *metaCase {
 	}
 	if core.Chance(rng, 1, 3) {
 		ls = append(ls, "##!> define main-d "+core.Pick(rng, "mm", `\d+`, "[m-o]"))
+	}
+	sharedLate := false
+	switch rng.Intn(6) {
+	case 0:
+		ls = append(ls, "##!> define shared-d MAINVALUE", "uses{{shared-d}}early")
+	case 1:
+		sharedLate = true
 	}
 	ext := func() string { return core.Pick(rng, "", "", ".ra") }
 	if core.Chance(rng, 1, 2) {
@@ -247,6 +264,10 @@ func c05Gen(rng *rand.Rand) *metaCase {
 	}
 	if core.Chance(rng, 1, 3) {
 		ls = append(ls, g.WordList(1)[0])
+	}
+	if sharedLate {
+		// defined after the include lines: the including file's own value applies to its own text all the same
+		ls = append(ls, "uses{{shared-d}}late", "##!> define shared-d LATEVALUE")
 	}
 	// a name that only an include file defines stays literal in the including file
 	if feats["inc-definition"] && core.Chance(rng, 1, 2) {
@@ -297,6 +318,10 @@ func c06Gen(rng *rand.Rand) *metaCase {
 		if def && i%3 == 1 {
 			e += "{{fd}}"
 		}
+		if core.Chance(rng, 1, 8) {
+			e += core.Pick(rng, " ", "  ") // trailing white space is part of an entry
+			feats["trailing-blank-entry"] = true
+		}
 		entries = append(entries, e)
 		if core.Chance(rng, 1, 6) {
 			f.WriteString(core.Pick(rng, "##! a comment", "", "   ", "##! "+w) + "\n")
@@ -334,6 +359,14 @@ func c06Gen(rng *rand.Rand) *metaCase {
 			for _, e := range entries {
 				if core.Chance(rng, 1, 3) {
 					x.WriteString(core.Pick(rng, "", "  ") + e + "\n")
+				} else if core.Chance(rng, 1, 6) {
+					// near misses must not exclude anything: the entry with / without trailing white space
+					if strings.HasSuffix(e, " ") {
+						x.WriteString(strings.TrimRight(e, " ") + "\n")
+					} else {
+						x.WriteString(e + " \n")
+					}
+					feats["exclude-near-miss"] = true
 				}
 			}
 			x.WriteString("##! comment in exclude file\n\nforeign\n")
@@ -394,6 +427,12 @@ func c06Gen(rng *rand.Rand) *metaCase {
 		main = append(main, "##!> include flist"+pairs)
 		feats["include-with-pairs"] = true
 	}
+	// an include file with its own prefix/suffix (so its text carries directive lines) and pairs whose keys end those lines
+	if core.Chance(rng, 1, 4) {
+		p.Files.Include["withaffix"] = "##!^ " + core.Pick(rng, `\b`, "pre") + "\n##!$ " + core.Pick(rng, `\b`, "post") + "\nalphax\nbetae\ngamma>\ndelta<\n"
+		main = append(main, "##!> include withaffix -- "+core.Pick(rng, "> GT < LT", "e EE", "< \"\" x yy", "e \"\" > q"))
+		feats["pairs-versus-directive-lines"] = true
+	}
 	p.Main = strings.Join(main, "\n") + "\n"
 	for k := range feats {
 		p.Features = append(p.Features, k)
@@ -412,7 +451,7 @@ func c07Gen(rng *rand.Rand) *metaCase {
 	// acyclic reference graph: definition i may refer to definitions with a larger index
 	vals := make([]string, nd)
 	for i := range names {
-		v := core.Pick(rng, "abc", `\d{2}`, `[a-c]+`, `a{2}`, `[{]`, `x|y`, `(?:m|n)`, `\.`, `q?`, `[^{}]`, `w{1,3}`)
+		v := core.Pick(rng, "abc", `\d{2}`, `[a-c]+`, `a{2}`, `[{]`, `(?:x|y)`, `(?:m|n)`, `\.`, `q?`, `[^{}]`, `w{1,3}`)
 		if i+1 < nd && core.Chance(rng, 1, 2) {
 			v += "{{" + names[i+1+rng.Intn(nd-i-1)] + "}}"
 			feats["nested-definition"] = true
@@ -463,6 +502,11 @@ func c07Gen(rng *rand.Rand) *metaCase {
 		if core.Chance(rng, 1, 2) && nd > 0 {
 			feats["reference-in-include-prefix"] = true
 			inc = "##!^ " + ref() + "\n" + inc
+		}
+		if nd > 0 && core.Chance(rng, 1, 2) {
+			// the include file defines one of the main file's names with another value: local to the include file
+			feats["include-redefines-name"] = true
+			inc = "##!> define " + names[rng.Intn(nd)] + " INCLOCAL\n" + inc
 		}
 		p.Files.Include["incd"] = inc
 		body = append(body, "##!> include incd")
